@@ -15,7 +15,7 @@ import Hts.Props.C01
 namespace Hts.Props.C08
 open Hts.Model Hts.Model.Member Hts.Spec
 open Hts.Model.BgzfWriter (BlockSize MaxBlockSize Op hasClose accepted)
-open Hts.Props.C01 (after)
+open Hts.Model.BgzfWriter (after)
 
 /-! ### one member -/
 
@@ -82,35 +82,6 @@ theorem member_length (c : CodecFns) (h : Header) (p m : List Byte) (hw : writeB
 
 /-! ### whole streams, for every write script -/
 
-/-- what the underlying writer has received when the script's Close returns, and Close's result -/
-def output (c : CodecFns) (h : Header) (wops : List (Op Byte)) : List Byte × Option WErr :=
-  closeOutput c h (after wops).emitted
-
-/-- the blocks of the script that reached the underlying writer -/
-def writtenBlocks (c : CodecFns) (h : Header) (wops : List (Op Byte)) : List (List Byte) :=
-  written c h (after wops).emitted
-
-theorem output_eq (c : CodecFns) (h : Header) (wops : List (Op Byte)) :
-    (output c h wops).1 = ((writtenBlocks c h wops).map (mb c h)).flatten ++
-      (if (output c h wops).2 = none then magicBlock else []) := by
-  simp only [output, closeOutput_eq, writtenBlocks, render_fst]
-
-theorem blocks_le (wops : List (Op Byte)) (hclose : hasClose wops = true) :
-    ∀ p ∈ (after wops).emitted, p.length ≤ BlockSize := by
-  have hcl : (after wops).closed = true := by rw [C01.writer_closed_iff, hclose]
-  obtain ⟨_, pre, last, hem, hpre, hlast⟩ := (C01.writer_blocks wops).2.2 hcl
-  intro p hp
-  rw [hem] at hp
-  rcases List.mem_append.mp hp with h' | h'
-  · exact (hpre p h').2
-  · simp at h'; subst h'; omega
-
-theorem writtenBlocks_sub (c : CodecFns) (h : Header) (wops : List (Op Byte)) :
-    ∀ p ∈ writtenBlocks c h wops, p ∈ (after wops).emitted := by
-  obtain ⟨r, hr⟩ := written_prefix c h (after wops).emitted
-  intro p hp
-  rw [hr]; exact List.mem_append_left _ hp
-
 /-- Every byte stream the writer produces for a script that closes it — whether Close returned nil or
 not — is a series of gzip members under the RFC 1952 grammar, each satisfying the BGZF constraints
 (the EOF marker included), and their payloads are the written blocks in order. -/
@@ -127,7 +98,7 @@ theorem stream_conformant (c : Codec) (h : Header) (hx : WFExtra h) (wops : List
     rcases List.mem_append.mp hM with h' | h'
     · obtain ⟨p, hp, rfl⟩ := List.mem_map.mp h'
       exact isBgzf_specMember c.toCodecFns h p hx (hfits p hp).2
-        (blocks_le wops hclose p (writtenBlocks_sub c.toCodecFns h wops p hp))
+        (BgzfWriter.after_blocks_le wops hclose p (writtenBlocks_sub c.toCodecFns h wops p hp))
     · by_cases hn : (output c.toCodecFns h wops).2 = none
       · simp [hn] at h'; subst h'; exact isBgzf_marker.1
       · simp [hn] at h'
@@ -152,7 +123,7 @@ theorem stream_gunzips (c : Codec) (h : Header) (wops : List (Op Byte)) (hclose 
   have hrn : (render c.toCodecFns h (after wops).emitted).2 = none := by
     simpa only [output, closeOutput_eq] using hok
   have hw := (render_snd_none _ _ _).mp hrn
-  have hcl : (after wops).closed = true := by rw [C01.writer_closed_iff, hclose]
+  have hcl : (after wops).closed = true := by rw [BgzfWriter.after_closed, hclose]
   have hact := ((C01.writer_blocks wops).2.2 hcl).1
   have := C01.writer_flatten wops
   rw [hact] at this
@@ -170,7 +141,7 @@ theorem eof_iff_clean_close (c : CodecFns) (h : Header) (wops : List (Op Byte)) 
     rw [output_eq, if_neg hne, List.append_nil]
     apply hasEOF_members
     -- the written blocks are a strict prefix of the queue, hence all data blocks of 1..BlockSize bytes
-    have hcl : (after wops).closed = true := by rw [C01.writer_closed_iff, hclose]
+    have hcl : (after wops).closed = true := by rw [BgzfWriter.after_closed, hclose]
     obtain ⟨_, pre, last, hem, hpre, hlast⟩ := (C01.writer_blocks wops).2.2 hcl
     obtain ⟨e, he⟩ := Option.ne_none_iff_exists'.mp hne
     have hre : (render c h (after wops).emitted).2 = some e := by
@@ -216,18 +187,8 @@ theorem eof_iff_clean_close (c : CodecFns) (h : Header) (wops : List (Op Byte)) 
 /-- With the writer's default header and a codec within zlib's deflateBound, Close returns nil for every
 script: no block is ever refused (the role of `compressBound(BlockSize) ≤ MaxBlockSize`, bgzf.go:36-44). -/
 theorem default_header_clean_close (c : CodecFns) (hb : Bounded c) (wops : List (Op Byte)) (hclose : hasClose wops = true) :
-    (output c {} wops).2 = none := by
-  have hall : written c {} (after wops).emitted = (after wops).emitted := by
-    have hle := blocks_le wops hclose
-    generalize (after wops).emitted = bl at hle
-    induction bl with
-    | nil => rfl
-    | cons p ps ih =>
-      have hf := C01.default_header_fits c hb p (hle p (by simp))
-      simp only [written, writeBlock_of_fits c {} p hf]
-      rw [ih (fun q hq => hle q (by simp [hq]))]
-  have := (render_snd_none c {} (after wops).emitted).mpr hall
-  simpa only [output, closeOutput_eq] using this
+    (output c {} wops).2 = none :=
+  default_output_ok c hb wops hclose
 
 /-! ### the defect of the unrepaired search, pinned -/
 
